@@ -25,9 +25,11 @@ LEVEL = "exploration"
 # ---------------------------------------------------------------------------------------------- directive reader
 
 READERS = {
-    "slurm": dict(prefix="#SBATCH", flags=[("--job-name=", "job_name"), ("--output=", "stdout"), ("--error=", "stderr"), ("--mem=", "memory"), ("--mail-type=", "mail_type"),
-                                           ("--mail-user=", "mail_user"), ("--qos=", "qos"), ("--gres=", "gres"), ("-N ", "nodes"), ("-c ", "cores"), ("-t ", "walltime"),
-                                           ("-p ", "queue"), ("-A ", "account"), ("-C ", "constraint")]),
+    # both spellings sbatch documents for each option are read
+    "slurm": dict(prefix="#SBATCH", flags=[("--job-name=", "job_name"), ("-J ", "job_name"), ("--output=", "stdout"), ("-o ", "stdout"), ("--error=", "stderr"), ("-e ", "stderr"),
+                                           ("--mem=", "memory"), ("--mail-type=", "mail_type"), ("--mail-user=", "mail_user"), ("--qos=", "qos"), ("-q ", "qos"), ("--gres=", "gres"),
+                                           ("-N ", "nodes"), ("--nodes=", "nodes"), ("-c ", "cores"), ("--cpus-per-task=", "cores"), ("-t ", "walltime"), ("--time=", "walltime"),
+                                           ("-p ", "queue"), ("--partition=", "queue"), ("-A ", "account"), ("--account=", "account"), ("-C ", "constraint"), ("--constraint=", "constraint")]),
     "sge": dict(prefix="#$", flags=[("-N ", "job_name"), ("-o ", "stdout"), ("-e ", "stderr"), ("-pe smp ", "cores"), ("-l h_vmem=", "memory"), ("-l h_rt=", "walltime"),
                                      ("-q ", "queue"), ("-P ", "account"), ("-V", "_V"), ("-w v", "_w"), ("-cwd", "_cwd")]),
     "lsf": dict(prefix="#BSUB", flags=[("-J ", "job_name"), ("-oo ", "stdout"), ("-eo ", "stderr"), ("-M ", "memory"), ("-n ", "cores"), ("-q ", "queue"), ("-R ", "_R")]),
